@@ -549,4 +549,68 @@ example :
   rw [C13_fn_do_remove_block _ (by intro f; simp) _ _ _ (by decide) (by decide) (by decide)]
   decide
 
+/-! ### round 10 (b6): `set_allow_deep_reorgs`, `abort_streamed_block`, `tip_time`, the default `on_streamed_block_abort`
+(targets `translate/fn_targets/TrackerC13.b6.json`, merged into the area `TrackerC13`) -/
+
+/-- `ChainTracker::set_allow_deep_reorgs` sets the flag and nothing else -/
+theorem C13_fn_set_allow_deep_reorgs (t : Tracker) (b : Bool) :
+    (toGen t).set_allow_deep_reorgs b = toGen { t with allowDeep := b } := rfl
+
+/-- **`ChainTracker::abort_streamed_block`** (the second half of the `add_block` / `remove_block` wrappers, and the entry a
+    front end calls when it gives up on a stream): the tracker's decode state is dropped, the listeners are told to drop
+    theirs (the external: the loop's effect on the map; the monitors' `BlockDecodeState` is the model's `ldec`), and
+    headers, tip, height, network, trusted oracles stay.  With the listeners' own state behind the listener this is the
+    model's `{ decoding := none, ldec := false }`. -/
+theorem C13_fn_abort_streamed_block (t : Tracker) :
+    ChainTracker.abort_streamed_block (fun ls => ls) (toGen t) = toGen { t with decoding := none, ldec := false } := rfl
+
+/-- the model's wrapper `abortIfStreamed` is the generated `abort_streamed_block` applied to the tracker `do_add_block` /
+    `do_remove_block` left behind, exactly when that call failed with a stream in progress -/
+theorem C13_fn_abort_if_streamed (t : Tracker) (r : Tracker × Out) (k : ErrKind) (hr : r.2 = .err k)
+    (hs : t.decoding.isSome) :
+    toGen (abortIfStreamed t r).1 = ChainTracker.abort_streamed_block (fun ls => ls) (toGen r.1) ∧
+    (abortIfStreamed t r).2 = r.2 := by
+  unfold abortIfStreamed
+  rw [hr]
+  simp only [hs, if_true]
+  constructor <;> first | rfl | trivial
+
+/-- whatever the listeners do on abort: no header, tip, height, network or oracle set changes, the stream is forgotten -/
+theorem C13_fn_abort_streamed_block_frame {VF PK BD BH CT V TM FH Key L : Type}
+    (f : List (Key × (L × ListenSlot)) → List (Key × (L × ListenSlot)))
+    (t : Gen.FnTrackerC13.ChainTracker VF PK BD BH CT V TM FH Key L) :
+    (t.abort_streamed_block f).decode_state = none ∧ (t.abort_streamed_block f).headers = t.headers ∧
+    (t.abort_streamed_block f).tip = t.tip ∧ (t.abort_streamed_block f).height = t.height ∧
+    (t.abort_streamed_block f).trusted_oracle_pubkeys = t.trusted_oracle_pubkeys ∧
+    (t.abort_streamed_block f).listeners = f t.listeners := ⟨rfl, rfl, rfl, rfl, rfl, rfl⟩
+
+/-- **`ChainTracker::tip_time`** reads `self.headers[0]`, the first header *behind* the tip (`do_add_block` pushes the old
+    tip to the front of `headers` and stores the new block in `tip`): it is the timestamp of the tip's parent, and `0`
+    while the window is empty (a tracker fresh from genesis / a checkpoint, or after a restart that kept no window) —
+    not "the header timestamp of the current chain tip" its doc comment promises.  Never ahead of the tip's own time
+    by the median-time rules, so a clock derived from it only lags.  Recorded in `notes/C13-C15.md`. -/
+theorem C13_fn_tip_time {D : Type} (f : Nat → D) (t : Tracker) :
+    (toGen t).tip_time f = .ok (f (match t.headers with | [] => 0 | h :: _ => h.hdr.time)) := by
+  unfold ChainTracker.tip_time
+  cases hh : t.headers with
+  | nil => simp [toGen, hh]
+  | cons h tl => simp [toGen, hh, Rs.index, toGenHs, toGenHdr]
+
+/-- the tip's own time does not enter -/
+theorem C13_fn_tip_time_ignores_tip {D : Type} (f : Nat → D) (t : Tracker) (tip' : Headers) :
+    (toGen { t with tip := tip' }).tip_time f = (toGen t).tip_time f := by
+  rw [C13_fn_tip_time, C13_fn_tip_time]
+
+/-- the default `ChainListener::on_streamed_block_abort` does nothing (a listener without decode state) -/
+theorem C13_fn_on_streamed_block_abort_default {S : Type} (x : S) :
+    Gen.FnTrackerC13.ChainListener.on_streamed_block_abort x = () := rfl
+
+open VlsModel.Props.C13 in
+/-- non-vacuity: on the example tracker with a stream in progress the abort clears it; `tip_time` of a tracker whose
+    window holds one header with time 77 is 77 whatever the tip says -/
+example : (ChainTracker.abort_streamed_block (fun ls => ls) (toGen { exTracker with decoding := some 5 })).decode_state = none ∧
+    (toGen { exTracker with headers := [⟨⟨9, 8, 1, 77, true⟩, 2⟩] }).tip_time (fun n => n) = .ok 77 := by
+  refine ⟨rfl, ?_⟩
+  rw [C13_fn_tip_time]
+
 end VlsModel.Props.C13Fn
